@@ -64,6 +64,9 @@ TABLE = {
     "../seeded/C01-3/patch.diff": ("contracts.c10", "CSEOptimizer.optimize", None),
     "../seeded/C12-4/patch.diff": ("contracts.c10", "CSEOptimizer.optimize", None),
     "../seeded/C04-5/patch.diff": ("contracts.c04", "_find_first_memory_consumer", None),
+    "../seeded/C05-4/patch.diff": ("contracts.c05", "_extract_simple_comparison", "5 CMP x with CMP = <"),
+    "../seeded/C06-3/patch.diff": ("contracts.c06", "_is_simple_source_ref", "IREntityOutput"),
+    "../seeded/C02-4/patch.diff": ("contracts.c02", "_inject_output_value_wire_color", "another gate"),
     "../seeded/C01-4/patch.diff": ("contracts.c07", "_configure_decider", "operation = <"),
 }
 RUNNER = r'''
